@@ -3,8 +3,8 @@ CONSTANTS
   Dev = {}
   NSamp = 2
   MaxLen = 2
-  WithSnp = TRUE
+  WithSnp = FALSE
   EmitReplay = TRUE
-  KK = 5
+  KK = 11
 INVARIANTS Traversal
 CHECK_DEADLOCK FALSE
